@@ -43,7 +43,7 @@ type c26Row struct {
 	iface                  string
 	sip, dip, dport, proto string
 	pr, ps, br, bs         string // packets received / sent, bytes received / sent
-	cut                    int    // >0: keep only the first cut fields
+	cut                    int    // >0: keep only the first cut fields; <0: drop the last -cut fields
 	// reference knowledge
 	valid        bool // well-formed in every schema
 	validNoIface bool // well-formed only when the schema has no iface column (the defect sits in that column)
@@ -79,6 +79,7 @@ var c26Rows = []c26Row{
 	c26Valid("v4-next-day", c26T3, "eth0", "10.0.0.3", "10.0.0.4", "53", "udp", 53, 17, 1, 1, 50, 50),
 	c26Valid("v4-earlier", c26T0, "eth0", "10.0.0.5", "10.0.0.6", "0", "1", 0, 1, 0, 6, 0, 600),
 	c26Broken("too-few-fields", func(r *c26Row) { r.cut = 3 }),
+	c26Broken("last-field-missing", func(r *c26Row) { r.cut = -1 }),
 	c26Broken("bad-ip", func(r *c26Row) { r.sip = "10.0.0.256" }),
 	c26Broken("mixed-family", func(r *c26Row) { r.dip = "2001:db8::8" }),
 	c26Broken("bad-counter", func(r *c26Row) { r.br = "12x" }),
@@ -152,6 +153,8 @@ func (r c26Row) render(s c26Schema, ts int64) string {
 	}
 	if r.cut > 0 {
 		f = f[:r.cut]
+	} else if r.cut < 0 {
+		f = f[:len(f)+r.cut]
 	}
 	return strings.Join(f, ",")
 }
@@ -389,7 +392,7 @@ func c26ListIfaces(db string) []string {
 func init() {
 	register("C26", &explore.Scenario{
 		ID: "C26", Name: "CSV import vs reference importer, destination read back through the query engine", Level: "exploration",
-		Rule:     "case = 6 schemas (header in file / --schema; with, without, with-and-overridden iface column; time first, last, between key columns; unknown extra column; counters first) x first row; execution = every row sequence of length <= 3 (quick, last three schemas: 2; thorough: 4) over a 16-row alphabet (v4, v6, same key again v4/v6, same key other iface, same key later, next day, earlier, too few fields, bad IP, mixed-family IPs, bad counter, bad port, empty iface, path-like iface, timestamp 0; malformed rows carry the timestamp of the last well-formed row) x max-rows (0 = all; every m < length, on the one representative file whose unread rows are the first alphabet element); real csvimport.Import into a fresh directory, Summary compared with a reference importer, destination queried with the real engine (sip,dip,dport,proto,time over all interfaces) and compared with the accepted rows summed per (iface, time, key); non-trivial = imports that stored at least one row or were rejected for a time regression, distinct by (schema, row sequence)",
+		Rule:     "case = 6 schemas (header in file / --schema; with, without, with-and-overridden iface column; time first, last, between key columns; unknown extra column; counters first) x first row; execution = every row sequence of length <= 3 (quick, last three schemas: 2; thorough: 4) over a 17-row alphabet (v4, v6, same key again v4/v6, same key other iface, same key later, next day, earlier, too few fields (3 fields / only the schema's last column missing), bad IP, mixed-family IPs, bad counter, bad port, empty iface, path-like iface, timestamp 0; malformed rows carry the timestamp of the last well-formed row) x max-rows (0 = all; every m < length, on the one representative file whose unread rows are the first alphabet element); real csvimport.Import into a fresh directory, Summary compared with a reference importer, destination queried with the real engine (sip,dip,dport,proto,time over all interfaces) and compared with the accepted rows summed per (iface, time, key); non-trivial = imports that stored at least one row or were rejected for a time regression, distinct by (schema, row sequence)",
 		Cases:    func(string) int { return len(c26Schemas) * len(c26Rows) },
 		Bound:    func(string) int { return 0 },
 		Run:      c26Run,
